@@ -322,7 +322,7 @@ def run_shard(ctx):
         out = check_program(ctx, prog, script, rng, n_data=2)
         ctx.seen('outcomes', out)
     # 2. random programs
-    count = ctx.pick(150, 2500)
+    count = ctx.pick(300, 8000)
     rp = gen.RandomPrograms(rng, max_depth=4, max_eqs=6, max_names=10, big_offsets=True, funcvar_rate=0.02,
                             underscore_rate=0.01, lhs_offsets=(0, 0, 0, 0, 0, 0, 0, -1, 1))
     for k in range(count):
